@@ -84,7 +84,7 @@ def w_ascii(exe, doms, src):
     return part
 
 
-def w_negative(exe, doms, src):
+def w_negative(exe, doms, src, judge=True):
     part = TG.new_part()
     cnt = part["counters"]
     lines = [driver.A_line(b"x@" + d, sections=1 | 4 | 8, modes=8, tlds=3) for d in doms]
@@ -96,8 +96,8 @@ def w_negative(exe, doms, src):
             continue
         for t in (0, 1):
             h = r["hl"][str(6 + t)]
-            cnt["negative.calls"] += 1
-            if h[0]:
+            cnt["negative.calls" if judge else "robustness.calls"] += 1
+            if h[0] and judge:
                 part["viol"].append(("negative/accepted", {"domain": core.b2s(d), "hex": d.hex()},
                                      {"6531": h, "idn2_direct": r["dom"][8:10] if r.get("dom") else None, "source": src}))
     part["distinct"] = len(set(doms))
@@ -127,6 +127,7 @@ def main(tier, seed):
     for d in list(neg):
         neg += [b"a." + d, d.replace(b".com", b".xn--p1ai")]
     jobs.append((w_negative, (exe, sorted(set(neg)), "negative")))
+    jobs.append((w_negative, (exe, sorted(set(TG.IGNORABLE_IDN)), "ignorable", False)))
     for part in core.pmap(_run, jobs):
         rep.merge(part)
     c = rep.counters
